@@ -39,6 +39,9 @@ func (c09) Runs(tier string) int {
 
 func c09Opts(tier string) core.HistOpts {
 	o := core.HistOpts{Shapes: allShapes, PageMin: 1, PageMax: 6, MinBatches: 0, MaxBatches: 4, MaxOps: 40, Profile: core.Benign, ManyPct: 1, ManyMax: 30, HugePct: 3}
+	if tier != "thorough" {
+		o.ManyPct = 0 // a 30-row-group workload has ~1000 sink calls to enumerate: thorough only
+	}
 	if tier == "thorough" {
 		o.MaxOps = 80
 		o.BigPagePct = 5
